@@ -77,12 +77,14 @@ def c05_shape():
 
 def extra_checks(pid, tier):
     try:
-        if pid in ("C13", "C07", "C03", "C14"):
+        if pid in ("C13", "C07", "C03", "C14", "C06"):
             import vxbounded
             out = []
             try:
                 if pid in ("C13", "C03"):
                     out += vxbounded.c13_json_typerefs(tier)
+                if pid == "C06":
+                    out += vxbounded.c06_catalogue(tier)
                 if pid == "C14":
                     out += vxbounded.c14_front(tier)
                 if pid == "C07":
